@@ -770,7 +770,8 @@ class XsdElement(XsdComponent, ParticleMixin,
                 else:
                     fixed_value = value
 
-                if len(obj) > 0 or fixed_value is not None and self.fixed != fixed_value:
+                if any(not callable(child.tag) for child in obj) or \
+                        fixed_value is not None and self.fixed != fixed_value:
                     reason = _("must have the fixed value %r") % self.fixed
                     context.validation_error(validation, self, reason, obj)
 
